@@ -215,20 +215,21 @@ def _maxmin(ex, st, items, is_max, node):
 
 
 def b_max(ex, st, args, kwargs, node, is_max=True):
-    if "key" in kwargs:
-        raise Unsupported("max/min with key")
+    keyf = kwargs.get("key")
     if len(args) >= 2:
+        if keyf is not None:
+            raise Unsupported("max/min of several arguments with key")
         return _maxmin(ex, st, list(args), is_max, node)
     v = args[0]
     s = ex.iter_seq(v, st, node)
     n = s.length
-    if isinstance(n, int):
+    if isinstance(n, int) and keyf is None:
         if n == 0:
             ex.safety(st, "max-empty", False, node)
             return 0
         return _maxmin(ex, st, [s.get(k) for k in range(n)], is_max, node)
-    # symbolic length: result is an element and bounds all elements (model of max/min)
-    used(ex, "builtin max/min over a list: result is an element and bounds every element; ValueError on empty")
+    # symbolic length (or key=): result is an element and its key bounds every element's key (first such element)
+    used(ex, "builtin max/min over a list (optionally with key=): result is an element whose key bounds every element's key; ValueError on empty")
     ex.safety(st, "max-empty", to_z3(n) > 0, node)
     e0 = s.get(z3.IntVal(0))
     if not is_scalar(e0):
@@ -238,7 +239,29 @@ def b_max(ex, st, args, kwargs, node, is_max=True):
     j = z3.Int(uid("j"))
     ej = to_z3(s.get(j))
     st.pc.append(z3.And(w >= 0, w < to_z3(n), to_z3(s.get(w)) == r))
-    st.pc.append(z3.ForAll([j], z3.Implies(z3.And(j >= 0, j < to_z3(n)), (ej <= r) if is_max else (ej >= r)), patterns=[ej] if not z3.is_var(ej) and not z3.is_const(ej) else []))
+
+    def keyof(x, quiet):
+        if keyf is None:
+            return x
+        if quiet:
+            ex.quiet += 1
+        try:
+            return ex.call(keyf, [x], {}, st, None, node)
+        finally:
+            if quiet:
+                ex.quiet -= 1
+
+    if keyf is not None:
+        # obligations inside the key function: once, for an arbitrary element
+        ii = z3.Int(uid("ki"))
+        pc0 = len(st.pc)
+        st.pc.append(z3.And(ii >= 0, ii < to_z3(n)))
+        keyof(s.get(ii), False)
+        del st.pc[pc0:]
+    kr, kj = keyof(r, True), keyof(s.get(j), True)
+    cmpz = ex.compare(ast.LtE() if is_max else ast.GtE(), kj, kr, st, node)
+    cmpz = z3.BoolVal(cmpz) if isinstance(cmpz, bool) else cmpz
+    st.pc.append(_forall_pats([j], z3.Implies(z3.And(j >= 0, j < to_z3(n)), cmpz), [[ej]]))
     return r
 
 
@@ -395,7 +418,7 @@ def b_sorted(ex, st, args, kwargs, node):
     le = z3.BoolVal(le) if isinstance(le, bool) else le
     eq = z3.BoolVal(eq) if isinstance(eq, bool) else eq
     # ordered (transitive form) and stable
-    st.pc.append(z3.ForAll([i2, j], z3.Implies(z3.And(i2 >= 0, i2 < j, j < nz), z3.And(le, z3.Implies(eq, perm(i2) < perm(j)))), patterns=[z3.MultiPattern(perm(i2), perm(j))]))
+    st.pc.append(_forall_pats([i2, j], z3.Implies(z3.And(i2 >= 0, i2 < j, j < nz), z3.And(le, z3.Implies(eq, perm(i2) < perm(j)))), [[perm(i2), perm(j)]]))
     out = PyList(Seq(n, out_get, tag=("sorted", s, perm, inv)))
     return out
 
